@@ -69,6 +69,7 @@ func runHistory(run *evid.Run, rng *rand.Rand, h int, immutable, large bool, nOp
 		u = model.SmallUniverse()
 	}
 	env := model.NewEnv(reg)
+	env.PartlyRead = h%5 == 2
 	env.Scribble = true
 	opts := model.GenOpts{Writers: true, Uploads: h%3 == 0, BadNames: true, BadRange: true}
 	var hist []step
